@@ -20,13 +20,18 @@ def extract(tier, mode="default"):
     all variants, one channel to fund, Restart) - refusals by the velocity limit and what they leave behind.
     mode "maxinv": the table of approved invoices holds MAX_INVOICES entries (Node.tla k.maxInvoices), the payment
     velocity control's counted amounts are part of the observed state, alphabet = invoice / keysend approvals,
-    heartbeat, restart - refusals because the table is full and what they leave behind."""
+    heartbeat, restart - refusals because the table is full and what they leave behind.
+    mode "issue": invoices issued by the node itself (Node.tla IssueInvoice / IssueRequests) - a second, different
+    invoice for an issued hash is refused and must leave the record of the first as it was."""
     if ("ex", mode) in _CACHE:
         return _CACHE[("ex", mode)]
     binpath = vlib.build("node")
     d = vlib.workdir("node-b" + ("" if mode == "default" else "-" + mode))
     alpha = os.path.join(d, "alphabet.json")
-    vlib.tlc("NodeAlphabet", os.path.join(SPEC, "NodeAlphabet.cfg"), env={"ND_OUT": alpha}, workers=1, timeout=300,
+    aenv = {"ND_OUT": alpha}
+    if mode == "issue":
+        aenv["ND_LEVEL"] = "issue"
+    vlib.tlc("NodeAlphabet", os.path.join(SPEC, "NodeAlphabet.cfg"), env=aenv, workers=1, timeout=300,
              name="node-alphabet")
     if mode == "feelimit":
         keep = [r for r in json.load(open(alpha))
@@ -37,7 +42,11 @@ def extract(tier, mode="default"):
         json.dump(keep, open(alpha, "w"))
     t0 = time.time()
     stats = vlib.run_bin(binpath, ["explore", "--alphabet", alpha, "--out", os.path.join(d, "ex"), "--threads", 16,
-                                   "--max-chans", 2, "--policy", mode], timeout=3000)
+                                   "--max-chans", 2, "--policy", mode,
+                                   # the small-limit modes have a handful of states on a correct signer; a change
+                                   # that lets a REFUSED request count something makes every refusal a new state -
+                                   # the first few hundred states show that, no need to follow them for ever
+                                   "--max-states", 200000 if mode == "default" else 400], timeout=3000)
     nodes = os.path.join(d, "nodes.ndjson")
     rows = vlib.merge_nodes(os.path.join(d, "ex"), nodes)
     details = {}
@@ -68,7 +77,9 @@ def extract(tier, mode="default"):
 def frame_component(pid, tier):
     viol, cov, ev, nt, samples = [], {}, 0, 0, []
     seen = set()
-    for mode in ("default", "feelimit", "maxinv"):
+    # "issue" (invoices issued by the node itself) is a C10 graph only: sign_bolt11_invoice records the issued
+    # invoice in memory and leaves the store write to a later request, and issued invoices are not in C11's list
+    for mode in (("default", "feelimit", "maxinv", "issue") if pid == "C10" else ("default", "feelimit", "maxinv")):
         v, c, e, n, s = _frame_one(pid, tier, mode)
         for x in v:
             if x["key"] not in seen:
